@@ -237,7 +237,7 @@ class RealDataSession:
         self.log = Log()
         self.inner = MaximumLikelihoodLoss()
 
-    def run(self, *, dist, x, condition, max_epochs, patience, batch, val_prop, return_best, optimizer, seed=0):
+    def run(self, *, dist, x, condition, max_epochs, patience, batch, val_prop, return_best, optimizer, seed=0, inner=None):
         from flowjax.train import fit_to_data
         log = self.log
         log.ev.clear()
@@ -248,7 +248,7 @@ class RealDataSession:
         row_of = {float(v): i for i, v in enumerate(xs[:, 0])}
         crow_of = None if condition is None else {float(v): i for i, v in enumerate(np.asarray(condition)[:, 0])}
         gradmark = make_gradmark(log)
-        inner = self.inner
+        inner = inner or self.inner
 
         def rec(xi, ci, k, *leaves):
             log.ev.append({"k": "loss", "rows": [row_of[float(v)] for v in np.asarray(xi)],
